@@ -24,6 +24,7 @@ def get_world(plan):
     if _WORLD is None:
         from models.holpy import make_world
         w = make_world()
+        w.uf_mul = plan.get('uf_mul', False)
         for extra in plan.get('models', []):
             importlib.import_module(extra).declare(w)
         for m in plan['specs']:
